@@ -121,6 +121,7 @@ ZeroOf(t) ==
   CASE t.k = "i" -> [v |-> Zero]
     [] t.k = "f" -> [v |-> FZero]
     [] t.k = "p" -> Null
+    [] t.k = "fp" -> [fn |-> ""]
     [] t.k = "a" -> [el |-> [j \in 1..t.n |-> ZeroOf(t.t)]]
     [] t.k = "s" -> [f |-> [nm \in {Structs[t.id].fields[j].n : j \in 1..Len(Structs[t.id].fields)} |-> ZeroOf(FieldOf(t.id, nm).t)]]
 
@@ -191,6 +192,8 @@ ArithT(a, b) ==     \* 6.3.1.8 on arithmetic operands a, b given as [t, bw]
 Decay(t) == IF t.k = "a" THEN [k |-> "p", t |-> t.t] ELSE t
 TypeOfE(e) ==
   CASE e.k = "lit" -> (TB(e.t, 0))
+    [] e.k = "flit" -> (TB(e.t, 0))
+    [] e.k = "fnref" -> (TB(e.t, 0))
     [] e.k = "var" -> (TB(Decay(env[e.n].t), 0))
     [] e.k = "idx" -> (TB(Decay(TypeOfE(e.a).t.t), 0))
     [] e.k = "deref" -> (TB(Decay(TypeOfE(e.e).t.t), 0))
@@ -244,7 +247,7 @@ FloatBin(op, l, r) ==     \* arithmetic/comparison with at least one floating op
        IF ~x.ok THEN Bad("inexact") ELSE FOk(ft.n, x.f)
 
 RECURSIVE SizeOfT(_)
-SizeOfT(t) == CASE t.k = "i" -> Size(t.n) [] t.k = "f" -> (IF t.n = "float" THEN 4 ELSE 8) [] t.k = "p" -> 8 [] t.k = "a" -> (IF SizeOfT(t.t) < 0 THEN -1 ELSE t.n * SizeOfT(t.t)) [] OTHER -> -1
+SizeOfT(t) == CASE t.k = "fp" -> 8 [] t.k = "i" -> Size(t.n) [] t.k = "f" -> (IF t.n = "float" THEN 4 ELSE 8) [] t.k = "p" -> 8 [] t.k = "a" -> (IF SizeOfT(t.t) < 0 THEN -1 ELSE t.n * SizeOfT(t.t)) [] OTHER -> -1
 RECURSIVE Eval(_), LVal(_), InitVal(_, _)
 (* load through an lvalue, with array-to-pointer decay *)
 LoadLV(lv) ==
@@ -253,7 +256,7 @@ LoadLV(lv) ==
   ELSE IF lv.obj = 0 \/ lv.obj \notin DOMAIN mem \/ ~mem[lv.obj].live THEN Bad("dead-or-null-object")
   ELSE LET x == GetPath(mem[lv.obj].val, lv.path, 1) IN
     IF lv.t.k \in {"i", "f"} THEN [ok |-> TRUE, t |-> lv.t, v |-> x.v, bw |-> lv.bw]
-    ELSE IF lv.t.k = "p" THEN RV(lv.t, x)
+    ELSE IF lv.t.k \in {"p", "fp"} THEN RV(lv.t, x)
     ELSE [ok |-> TRUE, t |-> lv.t, v |-> x, bw |-> 0]           \* whole struct value
 
 LVal(e) ==
@@ -284,6 +287,8 @@ LVal(e) ==
 
 Eval(e) ==
   CASE e.k = "lit" -> ( RV(e.t, Canon(e.t.n, e.v)))
+    [] e.k = "flit" -> (FOk(e.t.n, FV(e.neg, e.mag)))
+    [] e.k = "fnref" -> (RV(e.t, [fn |-> e.n]))          \* a function designator converted to a pointer to the function
     [] e.k \in {"var", "idx", "deref", "mem"} -> ( LoadLV(LVal(e)))
     [] e.k = "addr" -> (
          LET lv == LVal(e.l) IN
@@ -515,6 +520,16 @@ SVla ==        \* T name[len]; with a run-time length (6.7.6.2p5: the length sha
             /\ env' = (S.n :> [obj |-> o, t |-> t]) @@ env
             /\ ck' = Pop /\ CTick /\ UNCHANGED <<cpid, genv, cout, cstatus, cret, depth>>
 
+SAlloca ==     \* T *p = __builtin_alloca(len * sizeof(T)): storage that lives until the function returns
+  /\ IsStmt("alloca")
+  /\ LET r == Eval(S.len) IN
+       IF ~r.ok THEN Fail(r.why)
+       ELSE IF ~IsInt(r.t) \/ ~FitsNat31(PromV(r)) \/ Lo31(PromV(r)) = 0 \/ Lo31(PromV(r)) > 64 THEN Fail("alloca-length")
+       ELSE LET t == [k |-> "a", t |-> S.t, n |-> Lo31(PromV(r))]  o == NewObj IN
+            /\ mem' = (o :> [val |-> ZeroOf(t), live |-> TRUE]) @@ ((o + 1) :> [val |-> [obj |-> o, path |-> <<0>>], live |-> TRUE]) @@ mem
+            /\ env' = (S.n :> [obj |-> o + 1, t |-> [k |-> "p", t |-> S.t]]) @@ env
+            /\ ck' = Pop /\ CTick /\ UNCHANGED <<cpid, genv, cout, cstatus, cret, depth>>
+
 SBlock ==
   /\ IsStmt("block")
   /\ ck' = Push(Pop, [k |-> "seq", ss |-> S.ss, i |-> 1, env0 |-> env])
@@ -624,9 +639,12 @@ SVaArg ==
 
 SCall ==        \* [l =] f(args);  arguments are pure expressions
   /\ IsStmt("call")
-  /\ LET g == FuncByName(S.f)
+  /\ LET fe == IF "fe" \in DOMAIN S THEN Eval(S.fe) ELSE RV(TInt, Zero)       \* call through a pointer to function
+         fname == IF "fe" \in DOMAIN S THEN (IF fe.ok /\ fe.t.k = "fp" THEN fe.v.fn ELSE "") ELSE S.f
+         g == FuncByName(IF fname = "" THEN "main" ELSE fname)
          av == [j \in 1..Len(S.args) |-> Eval(S.args[j])] IN
-       IF \E j \in 1..Len(S.args) : ~av[j].ok THEN Fail("argument")
+       IF fname = "" THEN Fail("call-through-null-or-bad-function-pointer")
+       ELSE IF \E j \in 1..Len(S.args) : ~av[j].ok THEN Fail("argument")
        ELSE IF \E j \in 1..Len(g.params) : ~StoreConv(LV(0, <<>>, g.params[j].t, 0), av[j]).ok THEN Fail("argument-conversion")
        ELSE IF depth >= 12 THEN Fail("recursion-depth")
        ELSE IF Len(S.args) # Len(g.params) /\ ~("variadic" \in DOMAIN g /\ g.variadic /\ Len(S.args) > Len(g.params)) THEN Fail("call-arity")
@@ -638,7 +656,7 @@ SCall ==        \* [l =] f(args);  arguments are pure expressions
                         IF \E j \in 1..Len(g.params) : g.params[j].n = nm
                         THEN LET j == CHOOSE j \in 1..Len(g.params) : g.params[j].n = nm IN [obj |-> base + j, t |-> g.params[j].t]
                         ELSE genv[nm]]
-            /\ ck' = Push(Push(Pop, [k |-> "call", env0 |-> env, hasl |-> "l" \in DOMAIN S, l |-> IF "l" \in DOMAIN S THEN S.l ELSE [k |-> "nop"], rt |-> g.ret, fn |-> S.f,
+            /\ ck' = Push(Push(Pop, [k |-> "call", env0 |-> env, hasl |-> "l" \in DOMAIN S, l |-> IF "l" \in DOMAIN S THEN S.l ELSE [k |-> "nop"], rt |-> g.ret, fn |-> fname,
                                              \* trailing arguments of a variadic call after the default argument promotions (6.5.2.2p7)
                                              va |-> [j \in 1..(Len(S.args) - Len(g.params)) |-> DefaultPromote(av[Len(g.params) + j])], vai |-> 1]),
                           [k |-> "s", s |-> g.body])
@@ -692,7 +710,7 @@ SMain ==        \* after the globals: enter main's body with the global environm
   /\ genv' = env
   /\ CTick /\ UNCHANGED <<cpid, env, mem, cout, cstatus, cret, depth>>
 
-CNext == SExpr \/ SAsg \/ SObs \/ SDecl \/ SStatic \/ SVla \/ SBlock \/ SSeq \/ SIf \/ SLoop \/ SLoopTest \/ SNop \/ SCaseLabel \/ SBreak \/ SContinue
+CNext == SExpr \/ SAsg \/ SObs \/ SDecl \/ SStatic \/ SVla \/ SAlloca \/ SBlock \/ SSeq \/ SIf \/ SLoop \/ SLoopTest \/ SNop \/ SCaseLabel \/ SBreak \/ SContinue
          \/ SSwitch \/ SSwitchEnd \/ SGoto \/ SLabel \/ SVaArg \/ SCall \/ SCallEnd \/ SReturn \/ SRetAsg \/ SEnd \/ COutOfFuel \/ SMain
 
 CSpec == CInit /\ [][CNext]_cvars
